@@ -544,6 +544,26 @@ Section Proofs.
         rewrite m_get_sub in IH. specialize (IH Hg). rewrite app_snoc_assoc in IH. exact IH.
   Qed.
 
+  Lemma spec_terminal_length d : forall pre ks (m : smap), swf d m -> length ks = d ->
+    match spec_terminal d pre ks m with
+    | XLeaf k' _ => length k' = (length pre + d)%nat
+    | XPlaceholder => True
+    end.
+  Proof.
+    induction d as [|d IH]; intros pre ks m Hwf Hk.
+    - pose proof (swf_zero_small m Hwf) as Hs.
+      destruct m as [|[k w] [|e2 m]]; simpl in Hs; try lia; simpl; [exact I|].
+      destruct Hwf as [_ Hl]. inversion Hl; subst. simpl in *. rewrite app_length. lia.
+    - destruct m as [|[k w] [|e2 m]].
+      + exact I.
+      + simpl. destruct Hwf as [_ Hl]. inversion Hl; subst. simpl in *. rewrite app_length. lia.
+      + destruct ks as [|b ks]; [discriminate|]. injection Hk as Hk.
+        cbn [SparseSpec.spec_terminal].
+        specialize (IH (pre ++ [b]) ks (sub b ((k, w) :: e2 :: m)) (swf_sub d b _ Hwf) Hk).
+        destruct (spec_terminal d (pre ++ [b]) ks (sub b ((k, w) :: e2 :: m))); [|exact I].
+        rewrite IH, app_length. simpl. lia.
+  Qed.
+
   Theorem spec_incl_complete D (m : smap) k v : wf_map D m -> length k = D -> m_get m k = Some v ->
     spec_verify_incl hleaf hnode (smt_root zero hleaf hnode D m) k v (rev (spec_sides D [] k m)).
   Proof.
